@@ -113,6 +113,8 @@ FAULTS = [
     ("wire zq : «300»;", "InvalidWireWidth"),
     ("wire zq : 8; zq = «999999999999999999999999999999999999999999999»;", "InvalidConstant"),
     ("wire zq : 8; zq = 1 «$» 2;", "LexicalError"),
+    ("wire zq : 8; zq = [ pc == 0 : «0b11»; pc == 1 : «0b01»; pc == 2 : «0b10»; pc == 3 : «0b00»; pc == 4 : «0b11»; 1 : «0b111»; ];", "MismatchedMuxWidths"),
+    ("wire zq : 8; zq = [ pc == 0 : «0b1»; pc == 1 : «0b01»; pc == 2 : «0b1»; pc == 3 : «0b00»; pc == 4 : «0b1»; pc == 5 : «0b1»; pc == 6 : «0b1»; 1 : 7; ];", "MismatchedMuxWidths"),
     # two faults in one statement: the missing '=' is a syntax error, so nothing else is (or may be) said about the mux
     ("wire zq : 4; «zq» [ pc == 1 : 0b10; 1 : 0b11; ];", "MissingAssignmentMux"),
     ("wire zq : 4; «zq» [ pc == 1 : 2; ];", "MissingAssignmentMux"),
